@@ -29,9 +29,12 @@ def make_spec(g, allow):
             if r.random() < 0.7:
                 v = g.body((), ('cr', 'long') if r.random() < 0.3 else ())
                 calls.append((cfgno, Call('sasnap', v)))
-            else:
+            elif r.random() < 0.85:
                 val = g.json_value()
                 calls.append((cfgno, Call('sajson', g.json_text(val).encode(), r.choice(['s', 'b']))))
+            else:
+                # a failing call still consumes its file index: the next call maps to the next file
+                calls.append((cfgno, Call('sajson', g.bad_json().encode(), 's')))
         execs.append((n, calls))
     return dict(cfgs=cfgs, execs=execs, flags={'pct'} if any(b'%' in n for n in names) else set(),
                 reps=r.choice([1, 2]), upd=r.choice([(False, 'true'), (False, '')]))
@@ -68,6 +71,10 @@ def render(tag, spec):
             suf = sa_suffix(spec['cfgs'][cfgno - 1], name, k, c.kind == 'sajson')
             hit = [p for p in fs if p.endswith(suf)]
             kinds = [k2 for k2, _ in res.events]
+            if c.kind == 'sajson' and c.payload.decode('utf-8', 'replace') in ('', '{', '{"a":1,}', '{"a":1}{"b":2}', 'nul', '[1,2', '{"a":"\x01"}', '{a:1}', "{'a':1}"):
+                if kinds != ['E'] or hit:
+                    return 'op %d: invalid JSON must fail and leave its file index unused, got %r files %r' % (i, kinds, hit)
+                continue
             if rep == 0:
                 if kinds != ['L']:
                     return 'op %d: first execution should add, got %r' % (i, res.events[:1])
